@@ -42,7 +42,7 @@ def _sym_shapes(op: L.Op, idx: int, rng: random.Random, thorough: bool) -> list:
         return full
     low = [s for s in full if s is None or len(s) <= 2]
     high = [s for s in full if s is not None and len(s) > 2]
-    return low + rng.sample(high, min(30, len(high)))
+    return low + rng.sample(high, min(30 if len(op.inputs) == 1 else 8, len(high)))
 
 
 def infer_cases(rng: random.Random, thorough: bool) -> list[dict]:
@@ -310,7 +310,7 @@ def oracle_single(ck: core.Check) -> dict:
 def oracle_programs(ck: core.Check) -> dict:
     rng = ck.rng
     stats = {"programs": 0, "build_failed": 0, "runs": 0, "runs_refused_by_runtime": 0, "vars_checked": 0,
-             "ops": {}, "with_loop": 0, "with_if": 0, "with_inline": 0, "with_function": 0, "with_scan": 0,
+             "ops": {}, "with_loop": 0, "with_if": 0, "with_inline": 0, "with_function": 0, "with_function-two-types": 0,
              "body_vars_exposed": 0, "runtime_disagreements": 0, "disagreement_samples": []}
     n = ck.pick(260, 2600)
     for i in range(n):
@@ -328,7 +328,7 @@ def oracle_programs(ck: core.Check) -> dict:
         stats["runs_refused_by_runtime"] += st["refused"]
         for o, c in st["ops"].items():
             stats["ops"][o] = stats["ops"].get(o, 0) + c
-        for k in ("loop", "if", "inline", "function", "scan"):
+        for k in ("loop", "if", "inline", "function", "function-two-types"):
             stats["with_" + k] += int(st["ops"].get(k, 0) > 0)
         ck.count(("program", seed) if st["vars_checked"] else None)
         if i < 2:
@@ -338,11 +338,25 @@ def oracle_programs(ck: core.Check) -> dict:
 
 
 # =============================================================================== entry points
-def run(ck: core.Check):
-    from translator import ml_overrides
+def _facet(ck: core.Check, name: str, fn, *a):
+    """Run one facet; whatever goes wrong while *observing* spox (renamed internals, changed
+    signatures, exceptions in the harness) is a broken correspondence, never a crash of the run."""
+    try:
+        return fn(*a)
+    except Exception as e:  # noqa: BLE001
+        ck.broken("correspondence", f"{name} not observable: {type(e).__name__}", f"{e} | {core.fmt_exc()[-700:]}")
+        return None
 
-    tab = ml_overrides.generate()
-    ck.cov["override_table"] = [f"{r['module']}:{r['op']}#{r['hash']}" for r in tab["rows"]]
+
+def run(ck: core.Check):
+    tab = None
+    try:
+        from translator import ml_overrides
+
+        tab = ml_overrides.generate()
+        ck.cov["override_table"] = [f"{r['module']}:{r['op']}#{r['hash']}" for r in tab["rows"]]
+    except Exception as e:  # noqa: BLE001
+        ck.broken("translator", "ml_overrides not extractable", f"{type(e).__name__}: {e}")
     ck.lean(["SpoxModel.Props.C06"], audit="SpoxModel.Audit.C06")
     if ck.thorough:
         ck.leanchecker(["SpoxModel.Props.C06"])
@@ -353,19 +367,23 @@ def run(ck: core.Check):
         drv = None
         ck.broken("correspondence", "C06 driver", str(e)[:300])
     if drv is not None:
-        corr_infer(ck, drv)
+        _facet(ck, "infer correspondence", corr_infer, ck, drv)
         ck.log("infer correspondence done")
-        corr_loop(ck, drv)
-        corr_rt(ck, drv)
+        _facet(ck, "Loop correspondence", corr_loop, ck, drv)
+        _facet(ck, "runtime-spec correspondence", corr_rt, ck, drv)
         ck.log("runtime-spec correspondence done")
-        corr_conf(ck, drv)
+        _facet(ck, "conforms/strip correspondence", corr_conf, ck, drv)
 
-    ck.cov["oracle_single"] = oracle_single(ck)
+    # the model-free oracle runs whatever happened above
+    ck.cov["oracle_single"] = _facet(ck, "single-operator oracle", oracle_single, ck)
     ck.log("single-operator oracle done")
-    ck.cov["oracle_programs"] = oracle_programs(ck)
+    ck.cov["oracle_programs"] = _facet(ck, "program oracle", oracle_programs, ck)
     ck.log("program oracle done")
-    for f in P.replay_known(ck):
-        pass
+    _facet(ck, "witness replay", P.replay_known, ck)
+    if P.FALLBACK:
+        ck.broken("correspondence", "exposure of rank-unknown Vars not observable",
+                  "Graph.to_onnx_model(concrete=False)/results/_temporary_renames not usable (" + P.FALLBACK[0]
+                  + "); fell back to the public spox.build, rank-unknown Vars were not compared")
 
     ck.exhaustive = False
     ck.rule = (
